@@ -134,12 +134,13 @@ class HTTPFile(io.IOBase):
             start = index*self._chunk_size
             stop = min((index+1)*self._chunk_size, self.length)
             self.cache[index] = self.download_range(start, stop)
+        chunk = self.cache[index]
         if len(self.cache) > self._keep_chunks:
             for kk in self.cache.keys():
                 if kk != 0:  # always keep the first chunk
                     self.cache.pop(kk)
                     break
-        return self.cache[index]
+        return chunk
 
     def read(self, size=-1, /):
         """Cache-supported read operation (file object)"""
